@@ -68,3 +68,64 @@ PROP_NOTES = {
             "that the quotient of the first non-vanishing Taylor coefficients is the limit of f/g is assumed mathematics"],
     'C03': ["clause 'numerically to within rounding' is covered only by the bounded companion (coverage.bounded), never counted as proved"],
 }
+
+
+# ---------------------------------------------------------------------------- callee contracts
+# Each summary is the contract of a callee as seen from a call site: preconditions become
+# obligations of the caller (ip.ctx.oblige), the result is a function of the arguments (or a
+# fresh value constrained by the postcondition).  The callee's own obligations are discharged
+# by the contracts of the property named in `verified_by`.
+
+@summary('bezier.split_bezier', verified_by='C19 (split_bezier: left==closed-form, right==closed-form)')
+def _split_bezier(ip, f, args, kwargs):
+    from specs import bez
+    P = list(ip.iterate(args[0]))
+    t = args[1] if len(args) > 1 else kwargs['t']
+    left, right = bez.split_points(P, t)
+    return (list(left), list(right))
+
+
+def _bpoints_of(ip, seg):
+    """control points of a Line/QuadraticBezier/CubicBezier object read from its fields"""
+    n = seg.cls.name
+    a = seg.attrs
+    if n == 'Line':
+        return [a['start'], a['end']]
+    if n == 'QuadraticBezier':
+        return [a['start'], a['control'], a['end']]
+    if n == 'CubicBezier':
+        return [a['start'], a['control1'], a['control2'], a['end']]
+    raise KeyError(n)
+
+
+def _point_summary(ip, f, args, kwargs):
+    from specs import bez
+    seg = args[0]
+    t = args[1] if len(args) > 1 else kwargs['t']
+    from pyvc import models
+    if not isinstance(t, models.NUM):
+        return ip.run_func(f, args, kwargs)       # array arguments: executed in place
+    return bez.bern(_bpoints_of(ip, seg), t)
+
+
+def _poly_summary(ip, f, args, kwargs):
+    from specs import bez
+    from pyvc import models
+    seg = args[0]
+    rc = args[1] if len(args) > 1 else kwargs.get('return_coeffs', False)
+    co = bez.power_coeffs(_bpoints_of(ip, seg))
+    if rc is True:
+        return tuple(co) if seg.cls.name != 'Line' else list(co)
+    if rc is False:
+        return models.Poly1d(co)
+    return ip.run_func(f, args, kwargs)
+
+
+def _bpoints_summary(ip, f, args, kwargs):
+    return tuple(_bpoints_of(ip, args[0]))
+
+
+for _cls in ('Line', 'QuadraticBezier', 'CubicBezier'):
+    summary('path.%s.point' % _cls, verified_by='C03 (point(t)==bernstein)')(_point_summary)
+    summary('path.%s.poly' % _cls, verified_by='C03 (coeffs==monomial-basis-coefficients)')(_poly_summary)
+    summary('path.%s.bpoints' % _cls, verified_by='C03 (bpoints-are-the-control-points)')(_bpoints_summary)
